@@ -66,6 +66,29 @@ VERUS = [dict(
     ],
 )]
 M = "common/stats.rs"
+# ------------------------------------------------------------------------------------------
+# Precision<ScalarValue> arithmetic (min / max / sum statistics): the exactness algebra over a type model of ScalarValue
+# ------------------------------------------------------------------------------------------
+IS = "impl Precision<ScalarValue>"
+def _arith(name, callee, sym):
+    return dict(file=F, path=[IS, "fn %s" % name], wrap=IS, ret="r",
+                edits=[dict(rule="R6", regex=r"a\s*\.%s\(b\)\s*\.map\(Precision::(Exact|Inexact)\)\s*\.unwrap_or\(Precision::Absent\)" % callee,
+                            replace=r"match a.%s(b) { Ok(v_) => Precision::\1(v_), Err(_) => Precision::Absent }" % callee, count=2)],
+                contract="""    ensures exact_is_exact(*self, *other, r, |x: int, y: int| x %s y),""" % sym)
+VERUS.append(dict(
+    name="precision_scalar",
+    uses="use vstd::prelude::*;\n",
+    prelude="prelude_scalar.rs", proofs="proofs_scalar.rs", witness="witness_scalar.rs", rlimit=60, min_verified=3, twins=[], std_specs=False,
+    items=[
+        dict(file=F, path=["enum Precision"], prefix="#[derive(Clone, Copy)]\n", edits=[NOBOUNDS]),
+        _arith("add", "add_checked", "+"), _arith("sub", "sub", "-"), _arith("multiply", "mul_checked", "*"),
+    ],
+    mutants=[
+        dict(name="scalar_add_mixed_is_exact", item="add", find="Ok(v_) => Precision::Inexact(v_)", replace="Ok(v_) => Precision::Exact(v_)"),
+        dict(name="scalar_sub_absent_operand_ignored", item="sub", find="(_, _) => Precision::Absent,", replace="(_, _) => *self,"),
+        dict(name="scalar_multiply_uses_add", item="multiply", find="a.mul_checked(b)", replace="a.add_checked(b)"),
+    ],
+))
 KANI = [dict(package="datafusion-common", module=M, timeout=900, harnesses=[
     dict(name="c29_add", complete=True, what="Precision<usize>::add, full usize x usize x 3x3 variants: Exact only for Exact+Exact without overflow and then the true sum; Absent absorbs; otherwise Inexact(saturated)"),
     dict(name="c29_sub", complete=True, what="Precision<usize>::sub, same contract with checked_sub"),
@@ -76,7 +99,7 @@ KANI = [dict(package="datafusion-common", module=M, timeout=900, harnesses=[
     dict(name="c29_with_fetch_rows_partitions", complete=True, twin_only=True, what="with_fetch, symbolic n_partitions: used as counterexample finder (twin of the Verus unit); proving it does not finish (float division)"),
     dict(name="c29_with_fetch_one_column_bounded", complete=False, twin_only=True, bound="1 column (column loop), byte sizes Absent", what="with_fetch: when rows are cut no column statistic stays Exact, NDV <= rows; identity case keeps columns"),
 ])]
-TRUSTED = ["Kani 0.68 / CBMC 6.11", "std::fmt::format stubbed (error text opaque)"]
+TRUSTED = ["Kani 0.68 / CBMC 6.11", "std::fmt::format stubbed (error text opaque)", "precision_scalar: type model of ScalarValue (Int64, Other); ScalarValue::{add_checked, sub, mul_checked} behind assumed contracts (Ok only with the mathematical result); `X.map(Precision::V).unwrap_or(Absent)` written as the match it abbreviates (R6)"]
 ASSUMPTIONS = ["n_partitions >= 1", "column byte_size / total_byte_size Absent in the with_fetch harnesses (f64 ratio scaling never yields Exact; sliced away)",
                "Precision<ScalarValue> arithmetic (Arrow kernels) not covered"]
 NOT_COVERED = ["per-operator statistics propagation (joins, filters, parquet metadata, aggregate_statistics rewrite)", "Precision<ScalarValue>", "try_merge_iter, project"]
